@@ -40,7 +40,17 @@ class DevD(Device):
     d_b = DeviceVar("b", write=True)
 
 
-CLASSES = {"A": DevA, "B": DevB, "C": DevC, "D": DevD}
+class DevE(Device):
+    # formats whose size is not a power of two (several members / byte strings)
+    e_3B = DeviceVar("3B", write=True)
+    e_I = DeviceVar("I", write=True)
+    e_3H = DeviceVar("3H", write=True)
+    e_5s = DeviceVar("5s", write=True)
+    e_HB = DeviceVar("=HB")
+    e_B = DeviceVar("B", write=True)
+
+
+CLASSES = {"A": DevA, "B": DevB, "C": DevC, "D": DevD, "E": DevE}
 
 
 def variables(cls):
